@@ -36,7 +36,7 @@ ASSUMPTIONS = [
 	"ties: any maximising (offset, overlap) is accepted; equal strand scores "
 	"may report either strand",
 ]
-REQUIRED = {"corner_calls": 5, "pairs_judged": 200, "pairs_query_longer": 20,
+REQUIRED = {"inplace_list_calls": 3, "corner_calls": 5, "pairs_judged": 200, "pairs_query_longer": 20,
 	"pairs_query_shorter": 20, "monotonicity_pairs": 1000,
 	"self_matches": 5, "rc_swaps": 5}
 TECHNIQUE = ("runtime monitoring: independent complete-score reference "
@@ -247,6 +247,24 @@ def run_case(cls, params, rec):
 		return
 	res, partial = out
 	nqs, nts = len(Qs), len(Ts)
+	if kind == "plain" and nts >= 2:
+		# call history: the SAME list object, one target replaced in place,
+		# same options; must equal the call on a freshly built list
+		Ts_mut = list(Ts)
+		gen.call(TT.tomtom, Qs, Ts_mut, n_jobs=1, **kw)
+		j = r.randrange(nts)
+		Ts_mut[j] = make_pwm(nr, r, Ts[j].shape[1], grid)
+		st, v_same = gen.call(TT.tomtom, Qs, Ts_mut, n_jobs=1, **kw)
+		st2, v_fresh = gen.call(TT.tomtom, Qs, [t.copy() for t in Ts_mut],
+			n_jobs=1, **kw)
+		rec.count("inplace_list_calls")
+		if st == "raise" or st2 == "raise" or not numpy.array_equal(
+			v_same.numpy(), v_fresh.numpy()):
+			rec.violation(cls, params, dict(desc, what="a target list "
+				"edited in place between two calls gives another result "
+				"than a freshly built list with the same contents",
+				replaced_target=j), mech="C14/call-history-dependence")
+			return
 	if kind == "hashing":
 		nb = params["n_target_bins"]
 		Tall = list(Ts) + ([rc(t) for t in Ts] if params["rc"] else [])
